@@ -362,6 +362,13 @@ def evaluate(case):
         entries = [("unknown", None)] * rank
 
     kinds = [k for k, _ in entries]
+    if any((k == "int" and p is not None and p < -1) or (k == "explicit" and any(x < 0 for x in p)) for k, p in entries if p is not None):
+        # A negative size other than -1 is not one of the specification forms the
+        # property quantifies over (int, tuple, dict, -1, None, 'auto', byte
+        # strings): whatever normalize_chunks does with it (it returns a layout with
+        # a negative size instead of refusing) is observed and counted, not judged.
+        labels.append("out-of-domain:negative-size-spec")
+        return out
     has_auto = "auto" in kinds
     usable = True  # numbers sane enough for the byte-limit check
     for ax, ((kind, payload), n, got) in enumerate(zip(entries, shape, res)):
